@@ -279,6 +279,15 @@ func (e *Env) ViolateFor(prop, key, msg string, c any) {
 	})
 }
 
+// Stop reports whether the worker should stop early: enough violations have been recorded that
+// further cases add nothing (a broken tree may make every further case slow or huge).
+func (e *Env) Stop() bool {
+	e.mu.Lock()
+	defer e.mu.Unlock()
+
+	return e.events["violations_total"] >= 6
+}
+
 // Violations returns the number of recorded violations so far.
 func (e *Env) Violations() int {
 	e.mu.Lock()
